@@ -11,11 +11,13 @@ import (
 	"os/exec"
 	"path/filepath"
 	"runtime"
+	"strconv"
 	"strings"
 	"sync"
 	"time"
 
 	"github.com/go-logr/logr"
+	"github.com/pckhoi/meow"
 	"github.com/wrgl/wrgl/pkg/ingest"
 	"github.com/wrgl/wrgl/pkg/objects"
 	objmock "github.com/wrgl/wrgl/pkg/objects/mock"
@@ -46,6 +48,9 @@ import (
 //   4 regression: failing slow store, producer goroutine must end    (4 nblocks w failat)    obs (1)
 //   5 merge end to end repeated under different GOMAXPROCS / yields  (5 base (layer ...) reps seed)  obs (0)
 //   6 regression: store Get fails from the k-th call during a merge  (6 nrows k)             obs (1)
+//   7 as 0, but the CSV has varying-length cells, the key is the SECOND column (1..40 bytes), the
+//     workers are released together right after SaveBlock (before indexing), and every block index
+//     is recomputed with objects.IndexBlock from the decoded rows and compared
 
 func init() { props["C16"] = &Prop{Gen: genC16, Run: runC16} }
 
@@ -68,15 +73,16 @@ type c16Store struct {
 	nset, nget  int
 	// barrier: Sets of block indices (the last store call before the workers touch the
 	// shared fields) return together, [barrier] at a time, to make the workers collide
-	barrier  int
-	bmu      sync.Mutex
-	bwaiting int
-	bgate    chan struct{}
+	barrier   int
+	barrierAt string // key prefix of the Sets that rendezvous ("blkidx/" by default)
+	bmu       sync.Mutex
+	bwaiting  int
+	bgate     chan struct{}
 }
 
 func c16NewStore(seed int64, yieldPct, sleepUs int) *c16Store {
 	return &c16Store{inner: objmock.NewStore(), rng: rand.New(rand.NewSource(seed)), yieldPct: yieldPct,
-		sleepUs: sleepUs, failKeys: map[string]bool{}}
+		sleepUs: sleepUs, failKeys: map[string]bool{}, barrierAt: "blkidx/"}
 }
 
 // yield is called outside the lock: a random runtime.Gosched or a short sleep.
@@ -117,7 +123,7 @@ func (s *c16Store) Set(k, v []byte) error {
 		time.Sleep(time.Duration(s.slowUs) * time.Microsecond)
 	}
 	err := s.set(k, v)
-	if err == nil && s.barrier > 1 && strings.HasPrefix(string(k), "blkidx/") {
+	if err == nil && s.barrier > 1 && strings.HasPrefix(string(k), s.barrierAt) {
 		s.rendezvous()
 	}
 	return err
@@ -252,12 +258,42 @@ func c16WriteCSV(path string, nrows int, seed int64) {
 	f.Close()
 }
 
+// CSV whose key column is NOT the first one and whose cells have varying lengths: columns
+// pad (0..30 bytes), k (unique key of 1..40 bytes), v.  A per-worker StrListEditor must find
+// the key at a different offset / with a different length in almost every row.
+func c16WriteCSVVar(path string, nrows int, seed int64) {
+	f, err := os.Create(path)
+	if err != nil {
+		panic(err)
+	}
+	w := csv.NewWriter(bufio.NewWriterSize(f, 1<<16))
+	w.Write([]string{"pad", "k", "v"})
+	r := rand.New(rand.NewSource(seed))
+	const letters = "abcdefghijklmnopqrstuvwxyz"
+	for _, i := range r.Perm(nrows) {
+		// unique: base-36 number, a separator, then 0..n letters (2..40 bytes in all)
+		key := strconv.FormatInt(int64(i), 36) + "-"
+		for extra := r.Intn(41 - len(key)); extra > 0; extra-- {
+			key += string(letters[r.Intn(26)])
+		}
+		w.Write([]string{strings.Repeat("p", r.Intn(31)), key, strconv.Itoa(i % 7)})
+	}
+	w.Flush()
+	if err := w.Error(); err != nil {
+		panic(err)
+	}
+	f.Close()
+}
+
 const c16RowBytes = 4 + (2 + 7) + (2 + 5) + (2 + 5) // encoded size of one row of c16WriteCSV
 const c16RowSize = 4 + (7 + 2) + (5 + 2) + (5 + 2)  // what Sorter.AddRow adds to its size counter
 
 // c16Ingest ingests the CSV with w worker goroutines.  chunkRows > 0 makes the sorter spill a
 // chunk every chunkRows rows; cut = truncate the first spilled chunk inside a row header
 // after SortFile (chunk read error in the producer).
+// key column of the CSV being ingested ("id" for c16WriteCSV, "k" for c16WriteCSVVar)
+var c16PK = []string{"id"}
+
 func c16Ingest(db objects.Store, path string, w int, chunkRows int, cut bool, tmp string) ([]byte, error) {
 	opts := []sorter.SorterOption{}
 	if chunkRows > 0 {
@@ -275,11 +311,11 @@ func c16Ingest(db objects.Store, path string, w int, chunkRows int, cut bool, tm
 	}
 	nw := ingest.WithNumWorkers(w + 2) // ingestTableFromBlocks: numWorkers -= 2
 	if !cut {
-		return ingest.IngestTable(db, s, f, []string{"id"}, logr.Discard(), nw)
+		return ingest.IngestTable(db, s, f, c16PK, logr.Discard(), nw)
 	}
 	// same as IngestTable, with the corruption between SortFile and IngestTableFromSorter
 	defer s.Close()
-	if err := s.SortFile(f, []string{"id"}); err != nil {
+	if err := s.SortFile(f, c16PK); err != nil {
 		return nil, err
 	}
 	chunks, _ := filepath.Glob(filepath.Join(tmp, "sorted_chunk_*"))
@@ -335,7 +371,32 @@ func c16Kid(c *xt.T, i int) *xt.T {
 
 // ---------------------------------------------------------------- kind 0: ingest
 
+// c16Reindex: the sum of the block index recomputed from the decoded rows of block [blk]
+func c16Reindex(db objects.Store, blk []byte, pk []uint32) ([]byte, error) {
+	rows, _, err := objects.GetBlock(db, nil, blk)
+	if err != nil {
+		return nil, err
+	}
+	idx, err := objects.IndexBlock(objects.NewStrListEncoder(true), meow.New(0), rows, pk)
+	if err != nil {
+		return nil, err
+	}
+	buf := bytes.NewBuffer(nil)
+	if _, err := idx.WriteTo(buf); err != nil {
+		return nil, err
+	}
+	sum := meow.Checksum(0, buf.Bytes())
+	return sum[:], nil
+}
+
 func c16RunIngest(ctx *Ctx, c *xt.T) (*xt.T, Verdict) {
+	vark := c.Kids[0].N == 7 // varying-length keys in the second column, barrier before indexing
+	if vark {
+		c16PK = []string{"k"}
+	} else {
+		c16PK = []string{"id"}
+	}
+	defer func() { c16PK = []string{"id"} }()
 	w := int(c16Kid(c, 1).N)
 	rows := c16Ints(c16Kid(c, 2))
 	failOff, failKind, readErr := int(c16Kid(c, 5).N), int(c16Kid(c, 6).N), int(c16Kid(c, 7).N)
@@ -360,6 +421,9 @@ func c16RunIngest(ctx *Ctx, c *xt.T) (*xt.T, Verdict) {
 		}
 		total += r
 	}
+	if vark {
+		chunkRows, readErr = 0, 0 // row sizes vary: no chunk arithmetic
+	}
 	if readErr > 0 && chunkRows == 0 {
 		chunkRows = 100
 	}
@@ -375,7 +439,11 @@ func c16RunIngest(ctx *Ctx, c *xt.T) (*xt.T, Verdict) {
 	}()
 	c16Warm(tmp)
 	path := filepath.Join(tmp, "c16.csv")
-	c16WriteCSV(path, total, seed+1)
+	if vark {
+		c16WriteCSVVar(path, total, seed+1)
+	} else {
+		c16WriteCSV(path, total, seed+1)
+	}
 	defer os.Remove(path)
 
 	// one-worker reference on a recording store
@@ -392,6 +460,14 @@ func c16RunIngest(ctx *Ctx, c *xt.T) (*xt.T, Verdict) {
 	if len(refT.Blocks) != n || int(refT.RowsCount) != total {
 		return xt.N(xt.L(9)), Fail("reference-shape", "one-worker table has %d blocks / %d rows, expected %d / %d",
 			len(refT.Blocks), refT.RowsCount, n, total)
+	}
+	if vark {
+		for j := range refT.Blocks {
+			got, err := c16Reindex(ref, refT.Blocks[j], refT.PK)
+			if err != nil || !bytes.Equal(got, refT.BlockIndices[j]) {
+				return xt.N(xt.L(9)), Fail("reference-index", "one-worker table: block %d re-indexed gives %x, stored index %x (%v)", j, got, refT.BlockIndices[j], err)
+			}
+		}
 	}
 	blkPos, idxPos := map[string]int{}, map[string]int{}
 	for j := range refT.Blocks {
@@ -425,6 +501,14 @@ func c16RunIngest(ctx *Ctx, c *xt.T) (*xt.T, Verdict) {
 		runtime.GOMAXPROCS(procs[rep%len(procs)])
 		db := c16NewStore(seed+int64(rep)*7919, yieldPct, sleepUs)
 		if rep >= 1 && w > 1 && n > 1 {
+			db.barrier = w
+			if n < w {
+				db.barrier = n
+			}
+		}
+		if vark && w > 1 && n > 1 {
+			// release the workers together right after SaveBlock, i.e. right before indexing
+			db.barrierAt = "blk/"
 			db.barrier = w
 			if n < w {
 				db.barrier = n
@@ -481,6 +565,23 @@ func c16RunIngest(ctx *Ctx, c *xt.T) (*xt.T, Verdict) {
 				break
 			}
 			// oracle: equals the one-worker result
+			if vark {
+				// every block index must be the index of ITS block (recomputed from the decoded rows)
+				wrong := 0
+				for j := range t.Blocks {
+					if j >= len(t.BlockIndices) {
+						break
+					}
+					got, err := c16Reindex(db, t.Blocks[j], t.PK)
+					if err != nil || !bytes.Equal(got, t.BlockIndices[j]) {
+						wrong++
+					}
+				}
+				if wrong > 0 {
+					bad("block-index-wrong", "%d of %d block indices are not the index of their block (re-indexed with objects.IndexBlock); %d workers, repetition %d", wrong, len(t.Blocks), w, rep)
+				}
+				ctx.Count("varkey_runs")
+			}
 			if int(t.RowsCount) != total {
 				bad("rowcount-wrong", "RowsCount=%d, %d rows ingested (%d workers, %d blocks)", t.RowsCount, total, w, n)
 			}
@@ -528,6 +629,9 @@ func c16RunIngest(ctx *Ctx, c *xt.T) (*xt.T, Verdict) {
 
 func c16RunChild(ctx *Ctx, c *xt.T) (*xt.T, Verdict) {
 	nrows, w, chunkRows := int(c16Kid(c, 1).N), int(c16Kid(c, 2).N), int(c16Kid(c, 3).N)
+	if os.Getenv("C16_CHILD") == "1" && c.Kids[0].N == 7 {
+		return c16RunIngest(ctx, c)
+	}
 	if os.Getenv("C16_CHILD") == "1" {
 		// in the child: a crash here is a process death seen by the parent
 		tmp := ctx.Tmp
@@ -571,6 +675,7 @@ func c16RunChild(ctx *Ctx, c *xt.T) (*xt.T, Verdict) {
 	}
 	if err != nil {
 		msg := stderr.String()
+		full := msg
 		if i := strings.Index(msg, "panic:"); i >= 0 {
 			msg = msg[i:]
 		}
@@ -580,8 +685,10 @@ func c16RunChild(ctx *Ctx, c *xt.T) (*xt.T, Verdict) {
 		cls := "child-crash"
 		if strings.Contains(msg, "send on closed channel") {
 			cls = "sorter-errchan-send-on-closed"
+		} else if strings.Contains(full, "insertBlock") {
+			cls = "worker-goroutine-panic"
 		}
-		return xt.N(xt.L(2)), Fail(cls, "ingest with a failing store and spilled chunks killed the process: %s", strings.ReplaceAll(msg, "\n", " | "))
+		return xt.N(xt.L(2)), Fail(cls, "ingest killed the process (panic in a goroutine): %s", strings.ReplaceAll(msg, "\n", " | "))
 	}
 	b, err := os.ReadFile(out)
 	if err != nil {
@@ -648,6 +755,8 @@ func runC16(ctx *Ctx, c *xt.T) (*xt.T, Verdict) {
 	switch c.Kids[0].N {
 	case 0:
 		return c16RunIngest(ctx, c)
+	case 7: // in a child process: a worker goroutine may panic
+		return c16RunChild(ctx, c)
 	case 2:
 		return c16RunFlow(ctx, c)
 	case 3:
